@@ -158,7 +158,10 @@ PROPS = {
             # systematic: every schedule with <= 2 preemptions (time-outs included) of a few seeded scenarios
             dict(mode="detx", name="condvar", quick=3, thorough=32, nontrivial=r"sync\.condvar\.to_wake@0 q\.pop 0 0 SyncBlocker"),
             dict(mode="det", name="barrier", quick=300, thorough=6000, nontrivial=r"sync\.condvar\.to_wake@0 q\.pop 0 0 SyncBlocker"),
+            # systematic (<= 2 preemptions): 2 parties x 2-4 or 3 parties x 2 generations on one barrier; the leader racing ahead needs no preemption
+            dict(mode="detx", name="barrier_small", quick=3, thorough=24, nontrivial=r"sync\.condvar\.to_wake@0 q\.pop 0 0 SyncBlocker"),
             dict(mode="det", name="waitgroup", quick=300, thorough=6000, nontrivial=r"sync\.condvar\.to_wake@0 q\.push SyncBlocker"),
+            dict(mode="detx", name="waitgroup", quick=2, thorough=16, nontrivial=r"sync\.condvar\.to_wake@0 q\.push SyncBlocker"),
             # real runtime: coroutine + thread waiters, real time-outs, 1-2 coroutine waiters cancelled at seeded moments
             dict(mode="live", name="condvar_live", quick=360, thorough=6000, nontrivial=r"sync\.condvar\.to_wake@0 q\.pop 0 0 SyncBlocker", timeout=600),
         ],
@@ -167,7 +170,7 @@ PROPS = {
             "crossbeam SegQueue (the condvar's waiter queue) and may_queue::mpsc::Queue (the mutex's) are atomic FIFOs at this layer",
             "Condvar theorems are over the atomic Mutex spec (C05); the replay runs the Condvar model in lock-step with the C05 Mutex model and checks the spec bit at every lock/unlock boundary",
             "the condvar scenarios' occupancy counter is a hooked atomic constructed in the scenario file (its events are named `?.L<line>`, listed under unresolved_sites, and skipped by the model): it only puts schedule points inside the critical sections",
-            "Barrier / WaitGroup models are the programs of barrier.rs / wait_group.rs over the Mutex and Condvar SPECS (locked regions atomic, notify_all = epoch); their replay compares the API boundary only (call/ret, leader flags, return order) plus the arrival's lock grant; the internals are tied by the condvar family",
+            "Barrier / WaitGroup models (BarrierImpl, WaitGroupImpl) are at implementation level for their own logic: one step per access to the lock-protected state (sync.barrier.count / generation_id, sync.wait_group.count: hooked `verif::Counted` fields, add-only under cfg(may_verif)), compared with the trace including values; Mutex and Condvar enter as their SPECIFICATIONS (lock = blocks until free; wait = release + sleep in one step, woken by a later notify_all or spuriously, re-locks) - justified by the cv_* / C05 theorems, not re-proved per blocker; the replay machine is layered on the condvar machine, which checks the same run's mutex / condvar / blocker events",
         ],
         assumptions=[
             "fair scheduling for the no-stranded-waiter theorem (quiescence form)",
@@ -175,7 +178,7 @@ PROPS = {
             "one mutex per condvar (the two-mutex panic of verify() is not modelled)",
             "Barrier generation_id is an unbounded Nat in the model (the code wraps at 2^64)",
         ],
-        rule="det mode: 2-5 threads; consumers wait / wait_while for a permit, bystanders wait_timeout once (virtual time-outs; woken without time-out they re-notify themselves, after a time-out the condvar must), producers add one permit per consumer and notify_one (under or after the lock) / notify_all, extra notify_one / notify_all without the lock; condvar_live (live mode, 1-3 workers): 2-5 coroutines + 1-3 threads as consumers (wait / wait_while loop), producers (notify_one under the lock with an optional hold, after the unlock, notify_all), bystanders (wait_timeout 2-5 ms real time) and 1-2 victim coroutines (wait / wait_timeout) cancelled after a delay, once inside the wait, or when a notification is announced; barrier: n = 1-5 threads x 1-4 rounds on one Barrier(n); waitgroup: 2-5 threads with 1-2 handles each, clone/drop/wait; seeded random schedules; non-trivial = a notifier popped a waiter's blocker (condvar, barrier) / a wait blocked (waitgroup); distinct = SHA-1 of the canonical trace",
+        rule="det mode: 2-5 threads; consumers wait / wait_while for a permit, bystanders wait_timeout once (virtual time-outs; woken without time-out they re-notify themselves, after a time-out the condvar must), producers add one permit per consumer and notify_one (under or after the lock) / notify_all, extra notify_one / notify_all without the lock; condvar_live (live mode, 1-3 workers): 2-5 coroutines + 1-3 threads as consumers (wait / wait_while loop), producers (notify_one under the lock with an optional hold, after the unlock, notify_all), bystanders (wait_timeout 2-5 ms real time) and 1-2 victim coroutines (wait / wait_timeout) cancelled after a delay, once inside the wait, or when a notification is announced; barrier: n = 1-4 (thorough 1-5) threads x 1-4 (1-5) rounds back to back on ONE Barrier(n) (re-use, the leader races ahead), barrier_small (detx): 2 parties x 2-4 or 3 parties x 2 generations, every schedule with <= 2 preemptions; waitgroup (det and detx): 2-5 threads with 1-2 handles each, clone/drop/wait; seeded random schedules; non-trivial = a notifier popped a waiter's blocker (condvar, barrier) / a wait blocked (waitgroup); distinct = SHA-1 of the canonical trace",
     ),
     "C12": dict(
         lean_props=["MayVerif.Props.C12"],
